@@ -276,6 +276,11 @@ class Gen:
             v = "$r%d" % d.randint(0, 2, key, "rv")
             expr = d.choice(RICH_VALUES, key, "rich")
             out = []
+            if self.allow_actions and not expr.startswith("regex") and d.chance(0.3, key, "viaaction"):
+                # the value lives in the start arguments of an action object; it is read back from there after the wait
+                ref = "$" + self.fresh("d")
+                return [{"k": "raw", "text": "start DataBotAction(data=%s) as %s" % (expr, ref)}, self.wait_external((key, "rw")),
+                        {"k": "raw", "text": 'send %s(v=%s.start_event_arguments["data"])' % (self.fresh("M"), ref)}]
             if d.chance(0.3, key, "glob"):
                 out.append({"k": "global", "var": v})
             out.append({"k": "assign", "var": v, "expr": expr})
